@@ -274,7 +274,7 @@ def terminals_text(values, status):
 # Python-side anchors
 
 # skeleton digest of the shipped Attribute.__str__ (prints every value, hence lark's None placeholders)
-ATTR_STR_SHIPPED_SKELETON = '7e318de78dcad545'
+ATTR_STR_SHIPPED_SKELETON = 'bdb3ad1605738f29'
 
 
 class SyntaxModule(GenModule):
